@@ -237,7 +237,14 @@ impl C09 {
         // the names are put into the written text, so that the system that carries them is a parsed one
         if rng.chance(1, 2) {
             let sfx = *rng.pick(&["_state", "_input", "_state_1", "_input_12", "_output", "_bad_0", "_constraint", "_output_3", ".c_state", "_bad", "_constraint_7"]);
-            let renamed = rename_in_text(&text, sfx);
+            // (or, one time in three, hierarchical names the way synthesis tools write them: a `$flatten\` prefix, or a
+            // long path with `/` and `:`)
+            let (pfx, sfx) = match rng.below(6) {
+                0 => ("$flatten\\top.\\", ""),
+                1 => ("top/u_core/u_alu:", "_with_a_rather_long_hierarchical_name"),
+                _ => ("", sfx),
+            };
+            let renamed = rename_in_text(&text, pfx, sfx);
             if renamed != text {
                 if let Ok(Some(sys_r)) = util::catch(|| patronus::btor2::parse_str(ctx, &renamed, Some("rn"))) {
                     sh.count("systems_renamed_with_reserved_word_suffix", 1);
@@ -330,12 +337,12 @@ fn yosysify(text: &str) -> String {
 }
 
 /// appends `sfx` to the name on every input/state/output line that has one
-fn rename_in_text(text: &str, sfx: &str) -> String {
+fn rename_in_text(text: &str, pfx: &str, sfx: &str) -> String {
     let mut out = String::new();
     for line in text.lines() {
         let t: Vec<&str> = line.split_whitespace().collect();
         if t.len() == 4 && matches!(t[1], "input" | "state" | "output") && !t[3].starts_with(';') {
-            out.push_str(&format!("{} {} {} {}{}\n", t[0], t[1], t[2], t[3], sfx));
+            out.push_str(&format!("{} {} {} {}{}{}\n", t[0], t[1], t[2], pfx, t[3], sfx));
         } else {
             out.push_str(line);
             out.push('\n');
